@@ -69,12 +69,25 @@ def dt(name: str):
     return None if name == "none" else name
 
 
+# column keys that are not strings (IO.tla "#0", "#t")
+KEYS = {"#0": 0, "#t": ("x", "a")}
+RKEYS = {repr(v): k for k, v in KEYS.items()}
+
+
+def pykey(k):
+    return KEYS.get(k, k)
+
+
+def abskey(k):
+    return RKEYS.get(repr(k), k if isinstance(k, str) else "other:%r" % (k,))
+
+
 def build(s: Dict[str, Any]):
     import pandera as pa
 
     cols = {}
     for c in s["cols"]:
-        cols[c["key"]] = pa.Column(dt(c["dtype"]), checks=[mk_check(x, pa) for x in c["checks"]], nullable=bool(c["nullable"]),
+        cols[pykey(c["key"])] = pa.Column(dt(c["dtype"]), checks=[mk_check(x, pa) for x in c["checks"]], nullable=bool(c["nullable"]),
                                    unique=bool(c["unique"]), coerce=bool(c["coerce"]), required=bool(c["required"]),
                                    regex=bool(c["regex"]), title=TEXT[c["title"]], description=TEXT[c["desc"]])
     levels = [pa.Index(dt(l["dtype"]), checks=[mk_check(x, pa) for x in l["checks"]], nullable=bool(l["nullable"]),
@@ -83,7 +96,7 @@ def build(s: Dict[str, Any]):
     index = None if not levels else levels[0] if len(levels) == 1 else pa.MultiIndex(levels)
     return pa.DataFrameSchema(cols, checks=[mk_check(x, pa) for x in s["checks"]], index=index, dtype=dt(s["dtype"]),
                               coerce=bool(s["coerce"]), strict={"F": False, "T": True, "filter": "filter"}[s["strict"]],
-                              name=TEXT[s["name"]], ordered=bool(s["ordered"]), unique=(list(s["unique"]) or None),
+                              name=TEXT[s["name"]], ordered=bool(s["ordered"]), unique=([pykey(x) for x in s["unique"]] or None),
                               report_duplicates=s["report"], unique_column_names=bool(s["ucn"]),
                               add_missing_columns=bool(s["amc"]), title=TEXT[s["title"]], description=TEXT[s["desc"]])
 
@@ -108,7 +121,7 @@ def p_comp(c, key=None) -> Dict[str, Any]:
     rec = {"dtype": p_dtype(c.dtype), "nullable": bool(c.nullable), "unique": bool(c.unique), "coerce": bool(c.coerce),
            "title": p_text(c.title), "desc": p_text(c.description), "checks": [p_check(x) for x in c.checks]}
     if key is not None:
-        rec.update({"key": key, "required": bool(c.required), "regex": bool(c.regex)})
+        rec.update({"key": abskey(key), "required": bool(c.required), "regex": bool(c.regex)})
     else:
         rec["name"] = "none" if c.name is None else c.name
     return rec
@@ -123,7 +136,7 @@ def project(schema) -> Dict[str, Any]:
     return {"cols": [p_comp(c, key=k) for k, c in schema.columns.items()], "index": levels,
             "checks": [p_check(x) for x in schema.checks], "dtype": p_dtype(schema.dtype), "coerce": bool(schema.coerce),
             "strict": strict, "name": p_text(schema.name), "ordered": bool(schema.ordered),
-            "unique": list(schema.unique or []), "report": schema.report_duplicates, "ucn": bool(schema.unique_column_names),
+            "unique": [abskey(x) for x in (schema.unique or [])], "report": schema.report_duplicates, "ucn": bool(schema.unique_column_names),
             "amc": bool(schema.add_missing_columns), "title": p_text(schema.title), "desc": p_text(schema.description)}
 
 
@@ -131,7 +144,7 @@ def frames(s: Dict[str, Any]):
     """a fixed bank of probe frames (keys taken from the schema); no semantics, only variety"""
     import pandas as pd
 
-    ka = s["cols"][0]["key"]
+    ka = pykey(s["cols"][0]["key"])
     kb = "b" if ka != "b" else "a"
     out = [pd.DataFrame({ka: [1, 2], kb: ["x", "y"]}), pd.DataFrame({ka: [0, 7], kb: ["a", "ab"]}),
            pd.DataFrame({ka: [1, 1], kb: ["b", "b"]}), pd.DataFrame({ka: [None, 1.0], kb: ["a", None]}),
